@@ -129,7 +129,7 @@ def run(tier):
         rep.tool_error(f"ParquetLayout MC: {mc.error or mc.violated}")
     else:
         rep.add_tlc(mc, "MC resumable reader over all layouts / NULL patterns / read sizes (N=4)")
-    n, k = (5, 6000) if tier == "quick" else (6, 6000)
+    n, k = (5, 6000) if tier == "quick" else (6, 30000)
     g = vlib.tlc("GenParquet", f"INIT Init\nNEXT Next\nINVARIANT Emit\nCHECK_DEADLOCK FALSE\nCONSTANTS N = {n}\n SampleK = {k}\n",
                  "C10-gen", workers=6, timeout=1500, heap="8g")
     if g.error:
